@@ -22,5 +22,6 @@ CONSTANTS
   EncodeAtEnqueue = FALSE
   BugZeroCostHeld = FALSE
   SplitOnlyAtEnqueue = FALSE
+  DropOnClose = FALSE
 INVARIANTS WithinGrant WithinMaxFrame CreditReturned NoEligibleQueued LedgerAgrees PrefixFidelity
 CHECK_DEADLOCK FALSE
